@@ -206,7 +206,9 @@ def run(ck: Check) -> int:
                 rej += (not exp)
                 if bool(g) != exp:
                     kid = None
-                    if '\n' in n and ('!(' in p or '**' in p or nodir or fl & G.X):
+                    if '\n' in n and ('!(' in p or '**' in p or nodir or fl & G.X) and not (nodir and n.endswith('/') and g):
+                        # (a directory-style path accepted under NODIR was D18 — the NODIR regex could not cross a newline — which is
+                        # repaired: unattributed)
                         # `$` in the look-ahead of `!(`, in the globstar divider (written `**` or the MATCHBASE prefix), in the NODIR regex — nowhere else (narrowed after
                         # seeded change C02f: `match` for `fullmatch` accepted `a/b\n` for the pattern `a/b`)
                         kid = 'KF-D3p'
